@@ -81,6 +81,9 @@ def gen(rng, tier):
     vars_ = common.VARS[:nv]
     if online:
         ops = common.DENSE_PAST_OPS if dense else common.PAST_OPS
+        if rng.random() < 0.3:
+            # operands with bounded-future operators: both sides are pastified (and delayed sub-formulas sit under the law's operators)
+            ops = (set(ops) | {'eventually_b', 'always_b'} | (set() if dense else {'next'})) - {'log'}
     else:
         ops = common.DENSE_OFFLINE_OPS if dense else set(sg.ALL_OPS)
     cfg = sg.GenCfg(vars=vars_, ops=ops, max_depth=rng.randint(1, 3), max_bound=rng.choice([2, 4]), p_loose=(rng.choice([0.3, 0.6, 0.9]) if dense else rng.choice([0.03, 0.3, 0.6])))
@@ -109,7 +112,16 @@ def gen(rng, tier):
             b1, b2 = b2, b1
         same_numerals = {'fine': fine, 'coarse': coarse}
     lhs, rhs = sides(law, p, q, b1, b2, unbounded)
-    pastify = online and any(x[0] in sg.FUTURE_OPS for x in sg.walk(lhs))
+    if online and (common.f08_blind(lhs) or common.f08_blind(rhs) or sg.horizon(lhs) != sg.horizon(rhs) or sg.horizon(lhs) > 12):
+        # (unbounded memory above a delayed operand: open finding F08) - fall back to past-time operands
+        cfg.ops = set(common.DENSE_PAST_OPS if dense else common.PAST_OPS)
+        for _ in range(50):
+            p = sg.gen_formula(rng, cfg)
+            q = sg.gen_formula(rng, cfg)
+            if sg.vars_of(p) and sg.vars_of(q):
+                break
+        lhs, rhs = sides(law, p, q, b1, b2, unbounded)
+    pastify = online and any(x[0] in sg.FUTURE_OPS for x in list(sg.walk(lhs)) + list(sg.walk(rhs)))
     sc = {'kind': kind, 'law': law, 'unbounded': unbounded, 'vars': vars_, 'p': p, 'q': q, 'b1': b1, 'b2': b2, 'pastify': pastify}
     if dense:
         rp = rng.choice([0.15, 0.4])       # plateaus of equal consecutive samples
@@ -122,7 +134,7 @@ def gen(rng, tier):
             k = 2.0 ** -20
             sc['signals'] = dict((v, [[t * k, x] for t, x in sc['signals'][v]]) for v in sc['signals'])
     else:
-        sc['n'] = rng.randint(1, 10) + (int(sg.horizon(lhs)) if pastify else 0)
+        sc['n'] = rng.randint(1, 10) + (int(sg.horizon(lhs)) + int(max(common.warmup_extra(lhs), common.warmup_extra(rhs))) if pastify else 0)
         if medium:
             sc['n'] += rng.randint(mb, 2 * mb)
         sc['data'] = world.gen_trace(rng, vars_, sc['n'], style=('plateau' if medium and rng.random() < 0.6 else None))
@@ -261,7 +273,8 @@ def run(sc):
             else:
                 lo, hi = max(fa[0][0], fb[0][0]), min(fa[-1][0], fb[-1][0])
                 if sc['pastify']:
-                    lo = max(lo, sg.horizon(lhs) * common.DENSE_TICK * (2.0 ** sc['tscale'] if sc.get('tscale') else 1.0))
+                    lo = max(lo, (sg.horizon(lhs) + max(common.warmup_extra(lhs), common.warmup_extra(rhs))) * common.DENSE_TICK *
+                             (2.0 ** sc['tscale'] if sc.get('tscale') else 1.0))
                 if not D.nondecreasing(a) or not D.nondecreasing(b):
                     bad = 'decreasing stamps'
             if not bad and lo <= hi:
@@ -274,7 +287,8 @@ def run(sc):
             nontriv = len(fa) > 1
             r.sim_time += max(0.0, hi - lo)
     else:
-        h0 = int(sg.horizon(lhs)) if sc['pastify'] else 0       # warm-up outputs of a pastified monitor are not specified (C03)
+        # warm-up outputs of a pastified monitor are not specified (C03); inside the F08 region until the warm-up left every memory
+        h0 = int(sg.horizon(lhs)) + int(max(common.warmup_extra(lhs), common.warmup_extra(rhs))) if sc['pastify'] else 0
         if len(a) != len(b) or not all(eqn(x, y) for x, y in list(zip(a, b))[h0:]):
             bad = 'values'
         nontriv = common.count_nontrivial(a)
